@@ -75,7 +75,7 @@ func Families(tier string) []Family {
 	// conserve: every token kind x unknown mode x require-order x a two-level command tree
 	{
 		f := Family{Name: "conserve"}
-		toks := Ts("a", "--", "-", "", "--b", "--s", "--s=v", "--l", "--u", "--u=v", "-bu", "-uw", "cmd", "sub")
+		toks := Ts("a", "--", "-", "", "--b", "--s", "--s=v", "--l", "--u", "--u=v", "-bu", "-uw", "-usw", "cmd", "sub")
 		for mode := 0; mode < 3; mode++ {
 			for um := 0; um < 3; um++ {
 				for _, ro := range []bool{false, true} {
